@@ -395,7 +395,21 @@ def quiet_stdout():
 SAMPLERS = ('step', 'line', 'write')
 
 
-def draw_schedule(rng, nthreads, traces, wlines):
+def draw_schedule(rng, nthreads, traces, wlines, used=None):
+    """One seeded schedule.  `used` (per scenario) remembers the pre-emption sets already tried, so that
+    the K schedules of a scenario are K *different* ones (sampling without replacement)."""
+    for attempt in range(6):
+        spec = _draw_schedule(rng, nthreads, traces, wlines)
+        if used is None:
+            return spec
+        key = (spec['first'], tuple((p['thread'], p['file'], p['line'], p['occ'], p['to']) for p in spec['preemptions']))
+        if key not in used or not spec['preemptions']:
+            used.add(key)
+            return spec
+    return spec
+
+
+def _draw_schedule(rng, nthreads, traces, wlines):
     """traces[t] = the distinct line traces [(file, line), ...] thread t's program had sequentially."""
     d = weighted(rng, [(0, 5), (1, 35), (2, 45), (3, 15)])
     sampler = rng.choice(SAMPLERS)
@@ -507,9 +521,10 @@ def scenario_job(athlib, scn, sched_seeds, opts):
     fnsw = Counter()
     import random
     rd = 0
+    used = set()
     for k, sseed in enumerate(sched_seeds):
         rng = random.Random(sseed)
-        spec = draw_schedule(rng, len(programs), traces, wlines)
+        spec = draw_schedule(rng, len(programs), traces, wlines, used)
         res = run_one(athlib, programs, spec, step_cap)
         rd = (rd + common.run_digest_term(sseed, [res['status'], res['out'], res['switches'], res['digest']])) & ((1 << 64) - 1)
         cnt.inc('runs')
@@ -741,8 +756,9 @@ def det_fingerprint(athlib, master, idx, k):
         accepted, traces, wlines, norders = oracle(athlib, scn['programs'])
         import random
         fp = []
+        used = set()
         for s in seeds:
-            spec = draw_schedule(random.Random(s), len(scn['programs']), traces, wlines)
+            spec = draw_schedule(random.Random(s), len(scn['programs']), traces, wlines, used)
             res = run_one(athlib, scn['programs'], spec, 300000)
             fp.append([res['status'], res['out'], res['switches'], res['digest'], res['steps']])
         return common.digest_of([scn, [[sorted(x) for x in a] for a in accepted], fp])
